@@ -57,6 +57,14 @@ class GotranCCodePrinter(C99CodePrinter):
     def _print_Float(self, flt):
         return self._print(str(float(flt)))
 
+    def _print_Pow(self, expr):
+        value = super()._print_Pow(expr)
+        if expr.exp == sympy.S.NegativeOne or expr.exp == -sympy.S.Half:
+            # 1.0/x and 1.0/sqrt(x) need parentheses when they are denominators
+            # themselves: a/(1/x) would be printed as a/1.0/x
+            value = f"({value})"
+        return value
+
     def _print_BooleanTrue(self, expr):
         # Print the boolean constants as integers (a variable can be called 'true')
         return "1"
